@@ -87,15 +87,16 @@ func b2g(b bool) int {
 //@   ensures[iadd] (raw.opcode == OpcodeIadd ==> gr("iaddX") == int(raw.v) && gr("iaddY") == int(raw.v2) && gr("iaddRet") == int(raw.rValue)) && (raw.opcode != OpcodeIadd ==> gr("iaddX") == old(gr("iaddX")) && gr("iaddY") == old(gr("iaddY")) && gr("iaddRet") == old(gr("iaddRet")))
 //@   ensures[icmp] (raw.opcode == OpcodeIcmp ==> gr("icmpX") == int(raw.v) && gr("icmpY") == int(raw.v2) && gr("icmpC") == int(raw.u1) && gr("icmpRet") == int(raw.rValue)) && (raw.opcode != OpcodeIcmp ==> gr("icmpX") == old(gr("icmpX")) && gr("icmpY") == old(gr("icmpY")) && gr("icmpC") == old(gr("icmpC")) && gr("icmpRet") == old(gr("icmpRet")))
 //@   ensures[load] (raw.opcode == OpcodeLoad ==> gr("loadPtr") == int(raw.v) && gr("loadOff") == int(raw.u1) && gr("loadRet") == int(raw.rValue)) && (raw.opcode != OpcodeLoad ==> gr("loadPtr") == old(gr("loadPtr")) && gr("loadOff") == old(gr("loadOff")) && gr("loadRet") == old(gr("loadRet")))
-//@   ensures[value-ids-are-fresh] verif_ghost_map_old("M:uext32", uint64(raw.rValue)) == 0 && verif_ghost_map_old("M:isLd", uint64(raw.rValue)) == 0
+//@   ensures[value-ids-are-fresh] verif_ghost_map_old("M:uext32", uint64(raw.rValue)) == 0 && verif_ghost_map_old("M:isLd", uint64(raw.rValue)) == 0 && verif_ghost_map_old("M:isConst", uint64(raw.rValue)) == 0
 //@   ensures[uext-map] verif_ghost_map_upd("M:uext32", uint64(raw.rValue), isUExt32(raw), 1) && verif_ghost_map_upd("M:uextArg", uint64(raw.rValue), isUExt32(raw), uint64(raw.v))
 //@   ensures[last] gr("lastOp") == int(raw.opcode) && gr("lastV") == int(raw.v) && gr("lastV2") == int(raw.v2) && gr("lastV3") == int(raw.v3) && gr("lastU1") == int(raw.u1) && gr("lastU2") == int(raw.u2) && gr("lastRet") == int(raw.rValue) && gr("lastTyp") == int(raw.typ)
 //@   ensures[access] (accWidth(raw) != 0 ==> gr("accW") == accWidth(raw) && gr("accOff") == int(uint32(raw.u1))) && (accWidth(raw) == 0 ==> gr("accW") == old(gr("accW")) && gr("accOff") == old(gr("accOff")))
+//@   ensures[const-map] verif_ghost_map_upd("M:isConst", uint64(raw.rValue), raw.opcode == OpcodeIconst, 1) && verif_ghost_map_upd("M:constVal", uint64(raw.rValue), raw.opcode == OpcodeIconst, raw.u1)
 //@   ensures[load-map] verif_ghost_map_upd("M:isLd", uint64(raw.rValue), raw.opcode == OpcodeLoad, 1) && verif_ghost_map_upd("M:ldPtr", uint64(raw.rValue), raw.opcode == OpcodeLoad, uint64(raw.v)) && verif_ghost_map_upd("M:ldOff", uint64(raw.rValue), raw.opcode == OpcodeLoad, raw.u1)
 //@   ensures[exit-check] gr("exitChecks") == old(gr("exitChecks")) + old(b2g(isExitCodeCheck(raw)))
-//@   ensures[oob] isOOBCheck(raw) ==> gr("oobChecks") == old(gr("oobChecks")) + 1 && gr("oobCode") == int(raw.u1) && gr("oobLen") == old(gr("icmpX")) && gr("oobAddX") == old(gr("iaddX")) && gr("oobAddY") == old(gr("iaddY")) && gr("oobArg") == old(gr("uextArg")) && gr("oobCeil") == old(gr("iconstVal")) && gr("oobViaExt") == old(b2g(gr("iaddX") == gr("uextRet") && gr("uextFT") == 32<<8|64)) && gr("oobViaConst") == old(b2g(gr("iaddY") == gr("iconstRet")))
+//@   ensures[oob] isOOBCheck(raw) ==> gr("oobChecks") == old(gr("oobChecks")) + 1 && gr("oobCode") == int(raw.u1) && gr("oobLen") == old(gr("icmpX")) && gr("oobAddX") == old(gr("iaddX")) && gr("oobAddY") == old(gr("iaddY")) && gr("oobArg") == old(int(verif_ghost_map("M:uextArg", uint64(gr("iaddX"))))) && gr("oobCeil") == old(int(verif_ghost_map("M:constVal", uint64(gr("iaddY"))))) && gr("oobViaExt") == old(b2g(verif_ghost_map("M:uext32", uint64(gr("iaddX"))) == 1)) && gr("oobViaConst") == old(b2g(verif_ghost_map("M:isConst", uint64(gr("iaddY"))) == 1))
 //@   ensures[not-oob] !isOOBCheck(raw) ==> gr("oobChecks") == old(gr("oobChecks")) && gr("oobCode") == old(gr("oobCode")) && gr("oobLen") == old(gr("oobLen")) && gr("oobAddX") == old(gr("oobAddX")) && gr("oobAddY") == old(gr("oobAddY")) && gr("oobArg") == old(gr("oobArg")) && gr("oobCeil") == old(gr("oobCeil")) && gr("oobViaExt") == old(gr("oobViaExt")) && gr("oobViaConst") == old(gr("oobViaConst"))
-//@   modifies raw.rValue, ghost("M:uext32"), ghost("M:uextArg"), ghost("M:isLd"), ghost("M:ldPtr"), ghost("M:ldOff"), ghost("accW"), ghost("accOff"), ghost("lastOp"), ghost("lastV"), ghost("lastV2"), ghost("lastV3"), ghost("lastU1"), ghost("lastU2"), ghost("lastRet"), ghost("lastTyp"), ghost("loadPtr"), ghost("loadOff"), ghost("loadRet"), ghost("exitChecks"), ghost("uextArg"), ghost("uextRet"), ghost("uextFT"), ghost("iconstVal"), ghost("iconstRet"), ghost("iaddX"), ghost("iaddY"), ghost("iaddRet"), ghost("icmpX"), ghost("icmpY"), ghost("icmpC"), ghost("icmpRet"), ghost("oobChecks"), ghost("oobCode"), ghost("oobArg"), ghost("oobCeil"), ghost("oobLen"), ghost("oobAddX"), ghost("oobAddY"), ghost("oobViaExt"), ghost("oobViaConst")
+//@   modifies raw.rValue, ghost("M:uext32"), ghost("M:uextArg"), ghost("M:isLd"), ghost("M:ldPtr"), ghost("M:ldOff"), ghost("M:isConst"), ghost("M:constVal"), ghost("accW"), ghost("accOff"), ghost("lastOp"), ghost("lastV"), ghost("lastV2"), ghost("lastV3"), ghost("lastU1"), ghost("lastU2"), ghost("lastRet"), ghost("lastTyp"), ghost("loadPtr"), ghost("loadOff"), ghost("loadRet"), ghost("exitChecks"), ghost("uextArg"), ghost("uextRet"), ghost("uextFT"), ghost("iconstVal"), ghost("iconstRet"), ghost("iaddX"), ghost("iaddY"), ghost("iaddRet"), ghost("icmpX"), ghost("icmpY"), ghost("icmpC"), ghost("icmpRet"), ghost("oobChecks"), ghost("oobCode"), ghost("oobArg"), ghost("oobCeil"), ghost("oobLen"), ghost("oobAddX"), ghost("oobAddY"), ghost("oobViaExt"), ghost("oobViaConst")
 
 // (pure helpers, given a frame so that callers deep in an inlined chain keep the ghost registers)
 //@ func (v Value) Type() Type
